@@ -181,6 +181,16 @@ def _engine():
     return explore.engine_for("C10", SCHEMA)
 
 
+def scalar_object(eng, scalar):
+    """the scalar attached to the cooked schema; falls back to the built-in implementation classes"""
+    try:
+        return eng._schema.find_type(scalar)
+    except AttributeError:
+        import importlib
+        mod = importlib.import_module("tartiflette.scalar.builtins." + scalar.lower())
+        return getattr(mod, "Scalar" + scalar)()
+
+
 def run_shard(item):
     mode, scalar = item
     out = {"counts": {"evaluations": 0, "triples": 0}, "tables": {"l1": {}, "l2": {}}, "sets": {}, "samples": [],
@@ -198,7 +208,7 @@ def run_shard(item):
         out["tables"][name][key] = out["tables"][name].get(key, 0) + 1
 
     if mode == "direct":
-        st = eng._schema.find_type(scalar)
+        st = scalar_object(eng, scalar)
         for raw in VALUES:
             # ---- L1 + L4 on results ----
             x = make(raw)
@@ -282,7 +292,7 @@ def run_shard(item):
             scn = Scenario(root={}, overrides={(fname,): x})
             out["counts"]["evaluations"] += 1
             resp = harness.execute(eng, "{ %s }" % fname, scn)
-            st = eng._schema.find_type(scalar)
+            st = scalar_object(eng, scalar)
             try:
                 direct = ("ok", st.coerce_output(x))
             except Exception:
